@@ -59,6 +59,13 @@ CHECKS = {
    text="spec/Action.tla gives every conversion and operator as coded and the ratio algebra as laws; TLC checks all actions/pairs/triples and the From<f64> step function on every k/1020; laws the as-coded model violates are listed pair by pair and confirmed on the real type before being reported. TLC prints, per action, neg/ratio/analog/sign and the Sub/Eq/Cmp rows against all 513 actions, and the From<f64>/<f32> grid; the harness evaluates the same complete tables on the real type.",
    design_ref="DESIGN.md 5/C16",
    note="All 2^32 f32 patterns are swept in the thorough tier by the harness and summarised as intervals validated against the rational break points."),
+
+ "C18": dict(
+   technique="TLA+ model checking on complete grids (validate, true-range identity, candle aggregation) and a TLA+ grammar of the text forms, all rows replayed on the real types; trace validation of the numeric helpers in exact fixed point",
+   category="model_checking",
+   text="spec/Candle.tla: validate as coded equals the statement's predicate on all 32768 candles over {NaN,-Inf,-1,0,1,2,3,+Inf}^5 (IEEE comparison semantics); tr_close = three-way maximum on 0..8^3; Candle + Candle associative (incl. absent volumes) on all triples of a candle grid. spec/Parse.tla: Source::from_str and MA::from_str as grammars over character tuples; TLC enumerates canonical texts, every single-character edit of them and every short text with the grammar's verdict. Every row is replayed on Candle, the 5-tuple, the array and Sequence::validate / FromStr / TryFrom. Trace_Candle checks tp, hl2, ohlc4, volumed_price, source(kind), clv (exact 0 on zero range), tr_close and `+` on arbitrary finite candles in exact fixed point.",
+   design_ref="DESIGN.md 5/C18",
+   note="Strings are modelled as tuples of characters over the alphabet that matters for the two grammars plus foreign characters."),
 }
 
 NOT_YET = {
